@@ -146,8 +146,10 @@ class Integrator(object):
     def compute_h_minimum(self):
         a_eval = self.acceleration_evals[0]
 
-        hmin = 1.0
+        hmin = np.inf
         for pa in a_eval.particle_arrays:
+            if pa.get_number_of_particles() == 0:
+                continue
             if pa.gpu:
                 h = pa.gpu.get_device_array('h')
             else:
